@@ -15,7 +15,8 @@ LEVEL = "proof"
 FILES = ["moclo-cidar/moclo/kits/cidar.py", "moclo-ecoflex/moclo/kits/ecoflex.py", "moclo-moclo/moclo/kits/moclo.py",
          "moclo-ytk/moclo/kits/ytk.py", "moclo/moclo/core/_assembly.py"]
 FUNCTIONS = [("moclo/moclo/core/vectors.py", "AbstractVector.target_sequence"), ("moclo/moclo/core/modules.py", "AbstractModule.target_sequence"),
-             ("moclo/moclo/core/_assembly.py", "AssemblyManager._generate_assembly")]
+             ("moclo/moclo/core/_assembly.py", "AssemblyManager._generate_assembly"),
+             ("moclo/moclo/core/_structured.py", "StructuredRecord._get_regex"), ("moclo/moclo/core/_structured.py", "StructuredRecord._match"), ("moclo/moclo/regex.py", "DNARegex.search")]
 # (kit, vector class, module class inserted, next-level class that must accept the product)
 TRIPLES = [("cidar", "CIDAREntryVector", "CIDARProduct", "CIDAREntry"),
            ("cidar", "CIDARCassetteVector", "CIDAREntry", "CIDARCassette"),
